@@ -1454,6 +1454,15 @@ class HplFunctionCall(HplExpression):
 
     def __attrs_post_init__(self):
         object.__setattr__(self, 'data_type', self.function.result)
+        # narrow each argument to the parameter types of the overloads that accept the call
+        types = tuple(arg.data_type for arg in self.arguments)
+        allowed = [DataType.NONE] * len(types)
+        for sig in self.function.overloads:
+            if sig.accepts(types):
+                params = sig.parameters + (sig.variadic,) * (len(types) - sig.arity)
+                allowed = [t | param for t, param in zip(allowed, params)]
+        args = tuple(arg.cast(t) for arg, t in zip(self.arguments, allowed))
+        object.__setattr__(self, 'arguments', args)
 
     @property
     def is_function_call(self) -> bool:
